@@ -1008,8 +1008,41 @@ fn main() {
                 }
             }
         }
+        Some("bulk") => {
+            // one connection, n distinct statement texts, each prepared twice: the cache holds every one of them
+            // (no bound, nothing forgotten), size() counts them, every repeat is a hit, clear() empties it
+            let n: usize = args.get(2).and_then(|s| s.parse().ok()).unwrap_or(1100);
+            let rt = runtime();
+            rt.block_on(async {
+                let cs = Case::new(&[1, 0, 0, 0]);
+                let obj = cs.pool.get().await.expect("bulk: get");
+                let parses = |cs: &Case| cs.sh.lock().unwrap().conns.iter().map(|c| c.nparse).sum::<i64>();
+                let p0 = parses(&cs);
+                let mut errors = 0;
+                for k in 0..n {
+                    if obj.prepare_cached(&format!("SELECT {}", k)).await.is_err() {
+                        errors += 1;
+                    }
+                }
+                let p1 = parses(&cs);
+                let size_first = obj.statement_cache.size();
+                for k in 0..n {
+                    if obj.prepare_cached(&format!("SELECT {}", k)).await.is_err() {
+                        errors += 1;
+                    }
+                }
+                let p2 = parses(&cs);
+                let size_second = obj.statement_cache.size();
+                obj.statement_cache.clear();
+                let size_cleared = obj.statement_cache.size();
+                println!(
+                    "{{\"n\":{},\"errors\":{},\"parses_first\":{},\"size_first\":{},\"parses_second\":{},\"size_second\":{},\"size_cleared\":{}}}",
+                    n, errors, p1 - p0, size_first, p2 - p1, size_second, size_cleared
+                );
+            });
+        }
         _ => {
-            eprintln!("usage: h4_pg gen <seed> <n> <profile> <maxlabels> | replay <file>");
+            eprintln!("usage: h4_pg gen <seed> <n> <profile> <maxlabels> | replay <file> | bulk [n]");
             std::process::exit(2);
         }
     }
